@@ -19,6 +19,14 @@ def make(rd, tier, seed, ev):
         repo = repo[::3]
     ev.sample({'generated_problem': gen[0][0], 'text': open(gen[0][1][0]).read()})
     EXEC.extend([g for g in gen if g[0].startswith('ft_')][:60 if tier == 'quick' else 600])
+    # more timelines for the executor only (other seeds of the same family, read in one piece): an adaptation that goes wrong
+    # needs a delay that actually presses on the timeline, which few of the problems above produce
+    import gen_features
+    more = []
+    for j in range(1, 4 if tier == 'quick' else 13):
+        more += [(n + '_s' + str(j), parts, ok) for (n, parts, ok) in gen_features.timeline_family(seed * 1000 + j, 90)
+                 if n.startswith('ft_rr') and len(parts) == 1]
+    EXEC.extend(plancheck.write_feature_problems(rd, more))
     return plancheck.remember(gen + repo), None
 
 
